@@ -181,6 +181,14 @@ def dens_gauss(x):
     return np.exp(-0.5 * x * x) + 0.01
 
 
+def dens_pure_gauss(x):
+    return np.exp(-0.5 * x * x)
+
+
+def dens_exp(x):
+    return np.exp(-x)
+
+
 def dens_ramp(x):
     return 1.5 + 0.4 * np.tanh(x)
 
@@ -271,7 +279,14 @@ def run_case(case):
         else:
             f = [dens_gauss, dens_ramp, dens_bimodal][int(rng.integers(0, 3))]
             p = f(x) if (usefunc or rng.random() < .5) else rng.uniform(0.05, 2.0, size=nx)
-        if not usefunc and not cumulative and rng.random() < .3:
+        if not cumulative and rng.random() < .12:
+            # a density spanning far more than 16 decades: the normalised cumulative distribution saturates in double
+            # precision (several trailing values are exactly 1.0), and u = 1 is among the deviates asked for
+            f = [dens_pure_gauss, dens_exp][int(rng.integers(0, 2))]
+            nx = int(rng.choice([50, 101, 201]))
+            x = np.linspace(-10.0, 10.0, nx) if f is dens_pure_gauss else np.linspace(0.0, 60.0, nx)
+            p = f(x)
+        elif not usefunc and not cumulative and rng.random() < .3:
             # an integer-valued grid in an integer (also unsigned) or float32 dtype, tabulated density
             x = np.sort(rng.choice(np.arange(1, 250), size=nx, replace=False)).astype(str(rng.choice(["u1", "u2", "u4", "u8", "i2", "i8", "f4"])))
             p = rng.uniform(0.05, 2.0, size=nx)
@@ -319,7 +334,10 @@ def run_case(case):
         err = np.abs(s.astype(LD) - exp)
         tol = 1e-9 * scale + 1e-9 * np.abs((xg[j + 1] - xg[j]) / (c[j + 1] - c[j]))
         bad = None
-        if np.any(constrained & (err > tol)):
+        if np.any(constrained & ~np.isfinite(s)):
+            i = int(np.nonzero(constrained & ~np.isfinite(s))[0][0])
+            bad = "u=%r maps to %r (not a point of the grid's range)" % (float(u[i]), float(s[i]))
+        elif np.any(constrained & (err > tol)):
             i = int(np.nonzero(constrained & (err > tol))[0][0])
             bad = "u=%r maps to %r, reference inverse-CDF gives %r" % (float(u[i]), float(s[i]), float(exp[i]))
         else:
